@@ -171,6 +171,7 @@ func compareView(sys *tarfs.FS, t *otree, rnd func(int) int) []failure {
 	}
 
 	// 2-4. Every path: Stat, content, directory listing.
+	nPaged := 0
 	all := append([]oentry{{".", t.root}}, want...)
 	for _, w := range all {
 		fi, err := sys.Stat(w.path)
@@ -233,6 +234,12 @@ func compareView(sys *tarfs.FS, t *otree, rnd func(int) int) []failure {
 			for i := 1; i < len(es); i++ {
 				if es[i-1].Name() >= es[i].Name() {
 					add("readdir", "ReadDir(%q) is not strictly sorted: %q before %q", w.path, es[i-1].Name(), es[i].Name())
+				}
+			}
+			if nPaged < 4 {
+				nPaged++
+				for _, msg := range checkPaging(sys, w.path, es) {
+					add("paging", "%s", msg)
 				}
 			}
 			// Open and ReadDir agree.
@@ -353,6 +360,74 @@ func compareView(sys *tarfs.FS, t *otree, rnd func(int) int) []failure {
 		}
 	}
 	return fails
+}
+
+// checkPaging checks the ReadDir(n) contract of io/fs on a handle of the
+// directory p, whose listing is es: n <= 0 hands out all the remaining entries
+// and no error (also at the end); n > 0 hands out at most n entries, in
+// listing order, and io.EOF exactly when nothing is left.
+func checkPaging(sys fs.FS, p string, es []fs.DirEntry) (msgs []string) {
+	open := func() fs.ReadDirFile {
+		f, err := sys.Open(p)
+		if err != nil {
+			return nil
+		}
+		d, _ := f.(fs.ReadDirFile)
+		return d
+	}
+	names := func(es []fs.DirEntry) string {
+		var s []string
+		for _, e := range es {
+			s = append(s, e.Name())
+		}
+		return strings.Join(s, ",")
+	}
+	defer func() {
+		if e := recover(); e != nil {
+			msgs = append(msgs, fmt.Sprintf("ReadDir on a handle of %q panics: %v", p, e))
+		}
+	}()
+	for _, n := range []int{0, -1, -7} {
+		d := open()
+		if d == nil {
+			return
+		}
+		got, err := d.ReadDir(n)
+		if err != nil || names(got) != names(es) {
+			msgs = append(msgs, fmt.Sprintf("Open(%q).ReadDir(%d) = [%s], %v; the directory has [%s]", p, n, names(got), err, names(es)))
+		}
+		again, err := d.ReadDir(n)
+		if err != nil || len(again) != 0 {
+			msgs = append(msgs, fmt.Sprintf("Open(%q): a second ReadDir(%d) = [%s], %v; want nothing and no error", p, n, names(again), err))
+		}
+		d.Close()
+	}
+	for _, n := range []int{1, 2, 3} {
+		d := open()
+		if d == nil {
+			return
+		}
+		var all []fs.DirEntry
+		for i := 0; i <= len(es)+1; i++ {
+			got, err := d.ReadDir(n)
+			if err == io.EOF {
+				if len(got) != 0 || len(all) != len(es) {
+					msgs = append(msgs, fmt.Sprintf("Open(%q).ReadDir(%d): io.EOF after %d of %d entries (with %d entries)", p, n, len(all), len(es), len(got)))
+				}
+				break
+			}
+			if err != nil || len(got) == 0 || len(got) > n {
+				msgs = append(msgs, fmt.Sprintf("Open(%q).ReadDir(%d) hands out %d entries, err %v", p, n, len(got), err))
+				break
+			}
+			all = append(all, got...)
+		}
+		if names(all) != names(es) {
+			msgs = append(msgs, fmt.Sprintf("Open(%q): pages of %d give [%s], the directory has [%s]", p, n, names(all), names(es)))
+		}
+		d.Close()
+	}
+	return
 }
 
 // unesc recovers the raw real path of an extraction node (resolution works on raw names).
